@@ -76,6 +76,7 @@ def main(chk):
   class DC:
     f: object
     g: object
+    st: str = struct.field(pytree_node=False, default='static')      # a static field: not part of the state dict
   table = leaf_table()
   rnd = random.Random(chk.seed)
   counter = [0]
@@ -102,7 +103,7 @@ def main(chk):
     if t == 'N':
       return NT(**kids)
     if t == 'C':
-      return DC(**kids)
+      return DC(**kids)      # (the static field keeps its default)
     raise ValueError(t)
 
   def canon(x):
